@@ -25,6 +25,9 @@ type wsCase struct {
 	Files    map[string]string
 	Names    []string
 	Expected map[string]string // file -> prototext of the expected FileDescriptorProto
+	// Mutation names an injected defect: the compiler is expected to reject the workspace, and checks over
+	// accepted inputs treat a rejection as "outside the domain" (C04: whatever IS accepted must satisfy the oracle)
+	Mutation string `json:",omitempty"`
 }
 
 func newWSCase(ws *gen.Workspace) wsCase {
